@@ -298,36 +298,66 @@ theorem bundle_prelude_establishes (call : CallFn N) (ρ : ExtOracle N) (k : Nat
       BI (layoutOf M env σ) infos (fun _ => none) σ' :=
   prelude_establishes call ρ k env M mods σ hne hMv hMI hnodup hcache
 
+theorem mem_take_of_getElem? {α : Type} {l : List α} {k n : Nat} {x : α} (hk : k < n) (h : l[k]? = some x) :
+    x ∈ l.take n :=
+  List.mem_of_getElem? (i := k) (by rw [List.getElem?_take]; simp [hk, h])
+
+theorem getElem?_of_mem_take {α : Type} {l : List α} {n : Nat} {x : α} (h : x ∈ l.take n) :
+    ∃ k, k < n ∧ l[k]? = some x := by
+  obtain ⟨k, hk⟩ := List.getElem?_of_mem h
+  rw [List.getElem?_take] at hk
+  by_cases hlt : k < n
+  · exact ⟨k, hlt, by simpa [hlt] using hk⟩
+  · simp [hlt] at hk
+
+/-- names that may become loaded -/
+def namesOf (ms : List ModInfo) : List String := ms.map (·.name)
+
 /-- What a call of module `m`'s accessor does at level `n + 2`, in ANY state satisfying the bundle
-invariant: it returns one value `w`, re-establishes the invariant with `m` loaded holding `w`,
-never unloads or changes an already loaded module, and — when `m` was already loaded — returns the
-stored value without running anything (trace and load map unchanged). -/
-def AccSpec (ρ : ExtOracle N) (L : Layout) (mods : List ModInfo) (m : ModInfo) (n : Nat) : Prop :=
-  ∀ (loaded : String → Option (Nat × Val N)) (args : List (Val N)) (σ : State N), BI L mods loaded σ →
+invariant (with `ps` the boxes of the accessor calls still in progress): it returns one value `w`,
+re-establishes the invariant with `m` loaded holding `w`, leaves the pending boxes alone, never
+unloads or changes an already loaded module, only loads modules of `upto`, and — when `m` was
+already loaded — returns the stored value without running anything (trace and load map unchanged). -/
+def AccSpec (ρ : ExtOracle N) (L : Layout) (mods : List ModInfo) (m : ModInfo) (upto : List ModInfo) (n : Nat) : Prop :=
+  ∀ (loaded : String → Option (Nat × Val N)) (args : List (Val N)) (ps : List Nat) (σ : State N),
+    BI L mods loaded σ → Pend L mods ps loaded σ →
     ∃ (w : Val N) (σ' : State N) (loaded' : String → Option (Nat × Val N)),
       callClosure ρ (n + 2) (accClosure L.M m.name (m.locals L)) args σ = .ok [w] σ' ∧
-      BI L mods loaded' σ' ∧
+      BI L mods loaded' σ' ∧ Pend L mods ps loaded' σ' ∧
       (∃ tb, loaded' m.name = some (tb, w)) ∧
       (∀ name x, loaded name = some x → loaded' name = some x) ∧
+      (∀ name, loaded' name ≠ none → loaded name ≠ none ∨ name ∈ namesOf upto) ∧
+      σ.cells.length ≤ σ'.cells.length ∧
       (∀ tb w0, loaded m.name = some (tb, w0) → w = w0 ∧ σ'.trace = σ.trace ∧ loaded' = loaded)
+
+theorem AccSpec.weaken {ρ : ExtOracle N} {L : Layout} {mods : List ModInfo} {m : ModInfo} {upto upto' : List ModInfo}
+    {n : Nat} (h : AccSpec ρ L mods m upto n) (hsub : ∀ x ∈ upto, x ∈ upto') : AccSpec ρ L mods m upto' n := by
+  intro loaded args ps σ hBI hP
+  obtain ⟨w, σ', loaded', h1, h2, h3, h4, h5, h6, h7, h8⟩ := h loaded args ps σ hBI hP
+  refine ⟨w, σ', loaded', h1, h2, h3, h4, h5, ?_, h7, h8⟩
+  intro name hn
+  rcases h6 name hn with h | h
+  · exact Or.inl h
+  · obtain ⟨x, hx, hxn⟩ := List.mem_map.mp h
+    exact Or.inr (List.mem_map.mpr ⟨x, hsub x hx, hxn⟩)
 
 /-- The assumption on a module body (the frame hypotheses of `accessor_memoises`, now relative to
 the invariant of the whole bundle): GIVEN that the accessors of the modules in `deps` behave as
 `AccSpec` says (at the levels `lvl` allows), the run of `m`'s wrapper from the state in which its
-accessor calls it returns, keeps the invariant (possibly with more modules loaded, `m` itself not),
-and leaves the accessor's fresh cell and box table alone. -/
+accessor calls it returns, keeps the invariant and the pending boxes — the accessor's own fresh box
+included —, loads at most modules of `deps` (not `m` itself), and keeps the accessor's fresh cell. -/
 def BodyOK (ρ : ExtOracle N) (L : Layout) (mods : List ModInfo) (lvl : ModInfo → Nat → Prop) (m : ModInfo) (n : Nat)
     (deps : List ModInfo) : Prop :=
-  (∀ d ∈ deps, ∀ n', lvl d n' → AccSpec ρ L mods d n') →
-  ∀ (loaded : String → Option (Nat × Val N)) (σ : State N), BI L mods loaded σ → loaded m.name = none →
+  (∀ d ∈ deps, ∀ n', lvl d n' → AccSpec ρ L mods d deps n') →
+  ∀ (loaded : String → Option (Nat × Val N)) (ps : List Nat) (σ : State N),
+    BI L mods loaded σ → Pend L mods ps loaded σ → loaded m.name = none →
     ∃ (vs : List (Val N)) (σb : State N) (loaded' : String → Option (Nat × Val N)),
       callClosure ρ (n + 1) (implClosure m.body (m.locals L)) []
         ((σ.allocCell .nil).2.allocTable { entries := [], mt := none }).2 = .ok vs σb ∧
-      BI L mods loaded' σb ∧ loaded' m.name = none ∧
+      BI L mods loaded' σb ∧ Pend L mods (σ.tables.length :: ps) loaded' σb ∧ loaded' m.name = none ∧
       (∀ name x, loaded name = some x → loaded' name = some x) ∧
-      σ.cells.length < σb.cells.length ∧ σ.tables.length < σb.tables.length ∧
-      σb.getTable σ.tables.length = { entries := [], mt := none } ∧
-      (∀ m' ∈ mods, ∀ tb w, loaded' m'.name = some (tb, w) → tb ≠ σ.tables.length)
+      (∀ name, loaded' name ≠ none → loaded name ≠ none ∨ name ∈ namesOf deps) ∧
+      σ.cells.length < σb.cells.length
 
 /-- **`bundle_dag_memoises`** — induction over the definition order. Let the modules `mods` be laid
 out as the prelude leaves them, in definition order (dependencies first, as `inline_dag` proves for
@@ -335,44 +365,48 @@ the real emission order), and let every body satisfy `BodyOK` relative to the mo
 BEFORE it. Then every accessor satisfies `AccSpec` at every admissible level: each call returns
 the module's single value, a module body runs at most once in the whole run (a loaded module is
 answered from its box with no event), all requirers receive the same value, values of loaded
-modules never change, and the invariant — hence all of this — holds again after the call. -/
+modules never change, only the module and modules defined before it get loaded, and the invariant —
+hence all of this — holds again after the call. -/
 theorem bundle_dag_memoises (ρ : ExtOracle N) (L : Layout) (mods : List ModInfo) (lvl : ModInfo → Nat → Prop)
     (hkeys : KeysDistinct mods)
     (hbody : ∀ (i : Nat) (m : ModInfo) (n : Nat), mods[i]? = some m → lvl m n → BodyOK ρ L mods lvl m n (mods.take i)) :
-    ∀ (i : Nat) (m : ModInfo) (n : Nat), mods[i]? = some m → lvl m n → AccSpec ρ L mods m n := by
+    ∀ (i : Nat) (m : ModInfo) (n : Nat), mods[i]? = some m → lvl m n → AccSpec ρ L mods m (mods.take (i + 1)) n := by
   intro i
   induction i using Nat.strongRecOn with
   | _ i ih =>
-    intro m n hmi hl loaded args σ hBI
+    intro m n hmi hl loaded args ps σ hBI hP
     have hm : m ∈ mods := List.mem_of_getElem? hmi
-    have hdeps : ∀ d ∈ mods.take i, ∀ n', lvl d n' → AccSpec ρ L mods d n' := by
+    have htake : ∀ x ∈ mods.take i, x ∈ mods.take (i + 1) := by
+      intro x hx
+      obtain ⟨j, hjlt, hj'⟩ := getElem?_of_mem_take hx
+      exact mem_take_of_getElem? (by omega) hj'
+    have hmtake : m ∈ mods.take (i + 1) := mem_take_of_getElem? (Nat.lt_succ_self i) hmi
+    have hdeps : ∀ d ∈ mods.take i, ∀ n', lvl d n' → AccSpec ρ L mods d (mods.take i) n' := by
       intro d hd n' hl'
-      obtain ⟨j, hj⟩ := List.getElem?_of_mem hd
-      have hjlt : j < i := by
-        by_cases h : j < i
-        · exact h
-        · have : (mods.take i)[j]? = none := by
-            simp only [List.getElem?_take]; simp [h]
-          rw [this] at hj; cases hj
-      have hj' : mods[j]? = some d := by
-        simp only [List.getElem?_take, hjlt, if_true] at hj; exact hj
-      exact ih j hjlt d n' hj' hl'
+      obtain ⟨j, hjlt, hj'⟩ := getElem?_of_mem_take hd
+      refine (ih j hjlt d n' hj' hl').weaken ?_
+      intro x hx
+      obtain ⟨k, hklt, hk'⟩ := getElem?_of_mem_take hx
+      exact mem_take_of_getElem? (by omega) hk'
     cases hload : loaded m.name with
     | some p =>
       obtain ⟨tb, w0⟩ := p
       have hh := bi_hit (callClosure ρ (n + 1)) ρ n L mods loaded m hm tb w0 [] σ hBI hload
-      refine ⟨w0, (σ.allocCell (.tbl tb)).2, loaded, ?_, hh.2, ⟨tb, hload⟩, fun _ _ h => h, ?_⟩
+      refine ⟨w0, (σ.allocCell (.tbl tb)).2, loaded, ?_, hh.2, hP.allocCell _, ⟨tb, hload⟩, fun _ _ h => h,
+        fun _ h => Or.inl h, by simp [State.allocCell], ?_⟩
       · simp only [accClosure, accFn]
         rw [callClosure_noparams, hh.1]
       · intro tb' w0' h
         cases h
         exact ⟨rfl, rfl, rfl⟩
     | none =>
-      obtain ⟨vs, σb, loaded', hrun, hb, hl', hmono, fcells, ftables, fboxT, hfresh⟩ :=
-        hbody i m n hmi hl hdeps loaded σ hBI hload
+      obtain ⟨vs, σb, loaded', hrun, hb, hPb, hl', hmono, hnew, fcells⟩ :=
+        hbody i m n hmi hl hdeps loaded ps σ hBI hP hload
+      obtain ⟨ftables, fboxT, _, _, hfresh⟩ := hPb σ.tables.length List.mem_cons_self
       have hmiss := bi_miss (callClosure ρ (n + 1)) ρ n L mods hkeys loaded loaded' m hm [] vs σ σb hBI hload hrun hb
         hl' fcells ftables fboxT hfresh
-      refine ⟨first vs, _, updLoaded loaded' m.name (σ.tables.length, first vs), ?_, hmiss.2, ?_, ?_, ?_⟩
+      refine ⟨first vs, _, updLoaded loaded' m.name (σ.tables.length, first vs), ?_, hmiss.2,
+        Pend.after_miss m.name (first vs) hP hPb, ?_, ?_, ?_, ?_, ?_⟩
       · simp only [accClosure, accFn]
         rw [callClosure_noparams, hmiss.1]
       · exact ⟨σ.tables.length, by simp [updLoaded]⟩
@@ -380,6 +414,17 @@ theorem bundle_dag_memoises (ρ : ExtOracle N) (L : Layout) (mods : List ModInfo
         have hne : name ≠ m.name := by
           intro e; rw [e, hload] at hx; cases hx
         simp [updLoaded, hne, hmono name x hx]
+      · intro name hn
+        by_cases hnm : name = m.name
+        · exact Or.inr (hnm ▸ List.mem_map.mpr ⟨m, hmtake, rfl⟩)
+        · simp only [updLoaded, hnm, if_false] at hn
+          rcases hnew name hn with h | h
+          · exact Or.inl h
+          · obtain ⟨x, hx, hxn⟩ := List.mem_map.mp h
+            exact Or.inr (List.mem_map.mpr ⟨x, htake x hx, hxn⟩)
+      · have : (afterMiss σb σ.cells.length σ.tables.length L.tC m.name (first vs)).cells.length = σb.cells.length := by
+          simp [afterMiss, State.rawSet, State.setTable, State.setCell, listSet_length]
+        omega
       · intro tb w0 h; cases h
 
 -- non-vacuity of `bundle_prelude_establishes` (two modules; the byte inequalities of the literal
@@ -403,23 +448,17 @@ example (call : CallFn natOps) (ρ : ExtOracle natOps) (σ : State natOps)
 theorem bodyOK_leaf (ρ : ExtOracle N) (L : Layout) (mods : List ModInfo) (lvl : ModInfo → Nat → Prop) (m : ModInfo)
     (hbodyEq : m.body = .mk [] (some (.ret [.false]))) (n : Nat) (deps : List ModInfo) :
     BodyOK ρ L mods lvl m n deps := by
-  intro _ loaded σ hBI hl
+  intro _ loaded ps σ hBI hP hl
   refine ⟨[.bool false], ((σ.allocCell .nil).2.allocTable { entries := [], mt := none }).2, loaded, ?_,
-    (hBI.allocCell _).allocTable, hl, fun _ _ h => h, ?_, ?_, ?_, ?_⟩
+    (hBI.allocCell _).allocTable, ?_, hl, fun _ _ h => h, fun _ h => Or.inl h, ?_⟩
   · simp [callClosure, implClosure, implFn, hbodyEq, execB, execSs, execLast, evalEs, evalE, Res.bind, bindLocals]
+  · exact (hP.allocCell _).allocTable_new (hBI.allocCell _)
   · simp [State.allocCell, State.allocTable]
-  · simp [State.allocCell, State.allocTable]
-  · simp [State.allocCell, State.allocTable, State.getTable]
-  · intro m' hm' tb w hlw
-    have sl := hBI.slots m' hm'
-    rw [hlw] at sl
-    have := sl.2.2.2.2.2
-    omega
 
 -- non-vacuity of `bundle_dag_memoises`: a one-module bundle whose module returns `false`; in every
 -- state satisfying the invariant its accessor obeys `AccSpec` at every level
 example (ρ : ExtOracle natOps) (L : Layout) (cI i a : Nat) (n : Nat) :
-    AccSpec ρ L [⟨"a", exBody, cI, i, a⟩] ⟨"a", exBody, cI, i, a⟩ n :=
+    AccSpec ρ L [⟨"a", exBody, cI, i, a⟩] ⟨"a", exBody, cI, i, a⟩ [⟨"a", exBody, cI, i, a⟩] n :=
   bundle_dag_memoises ρ L [⟨"a", exBody, cI, i, a⟩] (fun _ _ => True)
     (by intro m hm m' hm' _; simp at hm hm'; rw [hm, hm'])
     (by
